@@ -168,6 +168,7 @@ func (tpl *Template) execute(context Context, writer TemplateWriter) error {
 	if err != nil {
 		return err
 	}
+	verifEv("ExecBegin", 0, 0, 0, 0, tpl.name, parent.name, ctx)
 
 	// Run the selected document
 	if err := parent.root.Execute(ctx, writer); err != nil {
